@@ -1495,6 +1495,7 @@ impl HasChildren for XmlDocument {
         fn add_or_insert(doc: &XmlDocument, value: Rc<XmlItem>, id: Option<usize>) {
             value.remove_from_parent();
             value.set_parent_id(Some(doc.id()));
+            value.context().add_item(&value);
             if let Some(id) = id {
                 let index = doc.child_index(id).unwrap();
                 doc.children.borrow_mut().insert(index, value);
@@ -2087,6 +2088,7 @@ impl HasChildren for XmlElement {
             | XmlItem::Unexpanded(_) => {
                 value.remove_from_parent();
                 value.set_parent_id(Some(self.id()));
+                value.context().add_item(&value);
                 if let Some(id) = id {
                     let index = self.child_index(id).unwrap();
                     self.children.borrow_mut().insert(index, value.clone());
@@ -2358,6 +2360,7 @@ impl XmlElement {
 
     pub fn append_attribute(&mut self, attr: Rc<XmlItem>) {
         attr.set_parent_id(Some(self.id()));
+        attr.context().add_item(&attr);
         attr.init_order_recursive();
         self.attributes.push(attr);
     }
